@@ -105,7 +105,120 @@ def matchedLenGet (s : GStore) (aid : Int) : Int × Bool :=
   | some v => (v.matchedLen, decide (v.matchedLen = 0))
   | none => (0, true)
 
+/-- `Bid.Get(Join(aid, id))` -/
+def bidGet (s : GStore) (aid id : Int) : Bid × Bool :=
+  match s.viewAt aid with
+  | some v => ((v.bids.find? (fun b => decide ((b.id : Int) = id))).getD default,
+               (v.bids.find? (fun b => decide ((b.id : Int) = id))).isNone)
+  | none => (default, true)
+
+/-- `AllowedBidder.Get(Join(aid, bidder))`, as the stored record (with its auction id) -/
+def allowedGet (s : GStore) (aid : Int) (u : Acc) : AllowedArg × Bool :=
+  match s.viewAt aid with
+  | some v => (((lookupAllowed v.allowed u).map (fun x => (⟨v.a.id, x.bidder, x.cap⟩ : AllowedArg))).getD default,
+               (lookupAllowed v.allowed u).isNone)
+  | none => (default, true)
+
+/-- the `AllowedBidder` records under the prefix `aid` -/
+def allowedArgsOf (s : GStore) (aid : Int) : List AllowedArg :=
+  ((s.viewAt aid).map (fun v => v.allowed.map (fun x => (⟨v.a.id, x.bidder, x.cap⟩ : AllowedArg)))).getD []
+
 end GStore
+
+/-! ### gRPC query requests and responses (keeper/query_*.go)
+
+  A request's string fields are modelled by what they denote: `""` is `none`; a bech32 string is
+  the account it names (`validAcc` false: not an address); `is_matched`, `status`, `type` are the
+  value they spell or `junk`. -/
+
+inductive BoolStr where
+  | is (b : Bool)
+  | junk
+  deriving DecidableEq, Repr, Inhabited
+
+inductive ATypeStr where
+  | is (t : AType)
+  | junk
+  deriving DecidableEq, Repr, Inhabited
+
+inductive StatusStr where
+  | is (s : Status)
+  | junk
+  deriving DecidableEq, Repr, Inhabited
+
+structure ListBidReq where
+  aid : Int
+  bidder : Option Acc
+  isMatched : Option BoolStr
+
+structure GetBidReq where
+  aid : Int
+  bidId : Int
+
+structure ListAuctionReq where
+  status : Option StatusStr
+  type : Option ATypeStr
+
+structure GetAuctionReq where
+  aid : Int
+
+structure ListAllowedReq where
+  aid : Int
+
+structure GetAllowedReq where
+  aid : Int
+  bidder : Acc
+
+structure ListVqReq where
+  aid : Int
+
+structure ListBidResp where
+  bid : List Bid
+  deriving DecidableEq, Repr
+
+structure GetBidResp where
+  bid : Bid
+  deriving DecidableEq, Repr
+
+structure ListAuctionResp where
+  auction : List Auction
+  deriving DecidableEq, Repr
+
+structure GetAuctionResp where
+  auction : Auction
+  deriving DecidableEq, Repr
+
+structure ListAllowedResp where
+  allowed : List AllowedArg
+  deriving Repr
+
+structure GetAllowedResp where
+  allowed : AllowedArg
+  deriving Repr
+
+structure ListVqResp where
+  vqs : List VQ
+  deriving DecidableEq, Repr
+
+namespace Go
+
+/-- all pages of `query.Collection(Filtered)Paginate` together: the records, in key order, that
+    satisfy the predicate, transformed; an error of either closure aborts the listing -/
+def paginate {α β : Type} (l : List α) (pred : α → Bool × Bool) (tr : α → β × Bool) : List β × Unit × Bool :=
+  let kept := l.filter (fun x => (pred x).1)
+  (kept.map (fun x => (tr x).1), (), l.any (fun x => (pred x).2) || kept.any (fun x => (tr x).2))
+
+/-- `strconv.ParseBool` of a request string -/
+def parseBoolStr : Option BoolStr → Bool × Bool
+  | some (.is b) => (b, false)
+  | _ => (false, true)
+
+/-- `sdk.AccAddressFromBech32` of an optional request string -/
+def optAccParse : Option Acc → Acc × Bool
+  | some u => (u, !validAcc u)
+  | none => (default, true)
+
+end Go
 
 namespace Go
 /-- `types.DefaultGenesis()` -/
